@@ -7,6 +7,8 @@ CONSTANTS
   Mutex = TRUE
   ErrsCloser = "postgen"
   MainReadsErrs = FALSE
+  GenVariants = {1}
+  SlotRelease = "deferred"
   SkipRule = "coded"
   TwoRuns = FALSE
   EmitCases = FALSE
